@@ -794,13 +794,14 @@ impl<T, N: ArrayLength> GenericArray<T, N> {
         let num_in_chunks = num_chunks * N::USIZE;
         let num_remainder = slice.len() - num_in_chunks;
 
+        // Take the pointer once: a second `slice.as_mut_ptr()` would reborrow the whole
+        // slice and invalidate the pointer the first part was derived from.
+        let ptr = slice.as_mut_ptr();
+
         unsafe {
             (
-                slice::from_raw_parts_mut(
-                    slice.as_mut_ptr() as *mut GenericArray<T, N>,
-                    num_chunks,
-                ),
-                slice::from_raw_parts_mut(slice.as_mut_ptr().add(num_in_chunks), num_remainder),
+                slice::from_raw_parts_mut(ptr as *mut GenericArray<T, N>, num_chunks),
+                slice::from_raw_parts_mut(ptr.add(num_in_chunks), num_remainder),
             )
         }
     }
